@@ -454,6 +454,7 @@ class UnitIndex(object):
         self.parent_fn = {}
         self._walk_decls(unit.ast, None, True)
         self._parse_layouts(getattr(unit, 'layout_text', '') or '')
+        self._flatten_role_records()
 
     # ---- declarations
     def _walk_decls(self, n, fn, toplevel):
@@ -531,7 +532,8 @@ class UnitIndex(object):
                 if not m:
                     continue
                 tag, nm = m.group(1), m.group(2).strip()
-                mm = re.match(r'\((?:unnamed|anonymous)(?: struct| union)? at (.*):(\d+):(\d+)\)', nm)
+                # (also `outer::(unnamed at file:line:col)` for a struct defined inside another one)
+                mm = re.search(r'\((?:unnamed|anonymous)(?: struct| union)? at (.*):(\d+):(\d+)\)$', nm)
                 if mm:
                     key = ('l', mm.group(1), int(mm.group(2)), int(mm.group(3)))
                 else:
@@ -560,6 +562,34 @@ class UnitIndex(object):
                 cur._lay.append((int(m.group(1)), m.group(2).split()[-1]))
 
     # ---- type parsing
+    def _flatten_role_records(self):
+        """The internal records the rules know (ROLE_TABLES): a group of their fields moved into a nested struct
+        (`st->icon_cache.data`) stays addressable - the members of struct-typed fields are added as `parent.member` at their
+        absolute offsets, next to the parent field, so that the role lookup (by type and position) finds them."""
+        for r in list(self.records.values()):
+            nm = (r.name or '').replace('struct ', '')
+            if nm not in ROLE_TABLES or getattr(r, '_flattened', False) or r.size is None:
+                continue
+            r._flattened = True
+            extra = []
+            for f in list(r.fields):
+                try:
+                    t = self.parse_type(f[2])
+                except Exception:
+                    continue
+                if t.kind != 'rec' or t.rec is None or t.rec is r or t.rec.size is None or f[1] is None:
+                    continue
+                if (t.rec.name or '').replace('struct ', '') in ('ethernet_address_t',):
+                    continue
+                for g in t.rec.fields:
+                    if g[1] is None:
+                        continue
+                    extra.append(['%s.%s' % (f[0], g[0]), f[1] + g[1], g[2], g[3]])
+            for e in extra:
+                if e[0] not in r.field_by_name:
+                    r.fields.append(e)
+                    r.field_by_name[e[0]] = e
+
     def parse_type(self, qt):
         t = self._tcache.get(qt)
         if t is None:
